@@ -6,8 +6,10 @@ def run(tier, rep):
     modes.pipeline(tier, rep)
     # "wrong": all modes agree, but on a value that differs from the exact definition.  The statement of C13 is about
     # agreement and constant-evaluability only; such results are the business of C16 / C18 / C14 and are kept as a note.
-    wrong = [d for d in rep.devs if d["kind"] == "wrong"]
-    rep.devs = [d for d in rep.devs if d["kind"] != "wrong"]
+    # Exception: the byte-typed algorithm / container kernels (family "bytes") - there the definition is the element-wise
+    # order the constant evaluation necessarily implements, so a wrong value is a run-time fast path gone astray.
+    wrong = [d for d in rep.devs if d["kind"] == "wrong" and d.get("ev", {}).get("fam") != "bytes"]
+    rep.devs = [d for d in rep.devs if not (d["kind"] == "wrong" and d.get("ev", {}).get("fam") != "bytes")]
     if wrong:
         by = {}
         for d in wrong:
